@@ -4,7 +4,8 @@ MC:  ApiDomain.tla - the argument-shape domain of every entry point whose argume
      enumerates every shape one below / one above each legal value, zero and large (1 709 shapes) together with
      the outcome class the documentation requires.  Counters.tla - the crate's multi-word counter steps (BLAKE2
      byte counter, 64-bit and 32-bit cipher block counters) in a checked and an unchecked profile, exhaustively at
-     word width 3: inside the counter's range no step panics and the value is old + inc.
+     word width 3: inside the counter's range no step panics and the value is old + inc; the same rules at the real
+     widths (2^32, 2^64) over arbitrary counter values are discharged symbolically by Apalache (spec/apalache/CountersA.tla).
 TV:  three build profiles (dev; release with overflow checks and debug assertions; plain release):
        S. every shape printed by TLC is turned into a call sequence and executed in all three profiles; TraceApi
           (which extends ApiDomain) checks the outcome class of every probe; the functional trace specifications
@@ -223,6 +224,9 @@ def run(R):
     thorough = R.tier == "thorough"
     for cfg in ("MC_Counters_wrapping_checked.cfg", "MC_Counters_wrapping_unchecked.cfg"):
         R.model_check("Counters", cfg, need_actions=["Step"], workers=2)
+    # the same counter rules at the real word widths, symbolically: one step from an arbitrary counter value (Apalache)
+    R.apalache("CountersA", "CInit32")
+    R.apalache("CountersA", "CInit64")
     shapes = R.generate("ApiDomain", "GEN_ApiDomain.cfg")
     if len(shapes) < 1000:
         raise vlib.ToolError("ApiDomain printed only %d shapes" % len(shapes))
